@@ -191,16 +191,20 @@ def run_case(case, ctx):
         kinds.add(label.split(':')[0])
         with open(part, 'wb') as f:
             f.write(content)
-        for preload in (False, True):
+        # every third crash state is also read as a partial *blob* (a range that straddles the end of the object is served short)
+        variants = [(False, 'local'), (True, 'local')] + ([(False, 'blob')] if counters['crash_states'] % 3 == 0 else [])
+        for preload, backend in variants:
             try:
-                r = SgzReader(part, preload=preload)
+                r = SgzReader(part if backend == 'local' else monitors.FakeBlob(part), preload=preload)
+                if backend == 'blob':
+                    counters['blob_states'] = counters.get('blob_states', 0) + 1
             except monitors.ContractBreach as e:
                 bad.append({'sig': 'partial:open:short-buffer-handed-to-codec', 'detail': '%s: %s' % (label, e)})
                 continue
             except Exception:  # noqa
                 counters['open_failed'] += 1
                 continue
-            tag = 'preload:' if preload else ''
+            tag = 'preload:' if preload else 'blob:' if backend == 'blob' else ''
             try:
                 for op in (ops if not preload else [o for o in ops if not o[0].startswith(('gen_trace', 'get_tracefield'))]):
                     counters['reads'] += 1
@@ -253,4 +257,6 @@ def finalize(tier, cases, results, counters, strata):
         reasons.append('no crash state materialised')
     if counters.get('patch_handles', 0) == 0:
         reasons.append('no in-place patch handle recorded')
+    if counters.get('blob_states', 0) == 0:
+        reasons.append('no crash state read through the blob backend')
     return {'distinct_crash_states': counters.get('crash_states', 0)}, reasons
